@@ -207,6 +207,33 @@ Proof.
 Qed.
 Print Assumptions C16_compile_vm_safe_ctl_partial.
 
+(* ---------- regression lemmas for the repaired VM divergences ---------- *)
+(* 8c3c11e: `a[1.5] = 9` used to store at index 1 (int() truncation); it is ErrIndexValue now *)
+Theorem C16_vm_fractional_index_write_before_fix :
+  let args := [VNum (PrimFloat.div (float_of_Z 3) (float_of_Z 2)); VArr [VNum (float_of_Z 1); VNum (float_of_Z 2); VNum (float_of_Z 3)]; VNum (float_of_Z 9)] in
+  set_index_check_before_fix args = None /\ set_index_check args = Some (PErr EIndexValue).
+Proof. vm_compute. split; reflexivity. Qed.
+Print Assumptions C16_vm_fractional_index_write_before_fix.
+
+(* 6a7e6f1: `"äb"[0]` used to be the byte "\xc3"; it is the character "ä" now *)
+Theorem C16_vm_byte_strings_before_fix :
+  index_value_before_fix (VStr [195; 164; 98]%N) (VNum (float_of_Z 0)) = POk (VStr [195]%N) /\
+  index_value (VStr [195; 164; 98]%N) (VNum (float_of_Z 0)) = POk (VStr [195; 164]%N) /\
+  utf8_decode [195; 164; 98]%N = [228; 98]%N.
+Proof. vm_compute. repeat split; reflexivity. Qed.
+Print Assumptions C16_vm_byte_strings_before_fix.
+
+(* fc6a6b3: a step range with step 0 used to run zero times (OpStepRange pushed
+   `false`); OpStepRange returns ErrRangeValue now *)
+Theorem C16_vm_zero_step_before_fix :
+  let stk := [VNum (float_of_Z 1); VNum (float_of_Z 0); VNum (float_of_Z 5)] in
+  (exists rest, step_range 0 stk = Some (VBool false :: rest)) /\
+  forall p, exec p {| ip := 0%N; ostack := stk; locals := []; globals := [] |} StepRange 0%N 3%N = Failed ERangeValue.
+Proof. split; [eexists; vm_compute; reflexivity|intro p; vm_compute; reflexivity]. Qed.
+Print Assumptions C16_vm_zero_step_before_fix.
+(* (66b6227, repetition deep copy: this model has value semantics for arrays, the
+   old sharing cannot be expressed in it; the class is guarded by the harness) *)
+
 (* ---------- non-vacuity ---------- *)
 Definition ex_ctl : slist :=
   SCons (SDecl (s_ "x") (ENum (float_of_Z 0)))
